@@ -19,8 +19,14 @@
        is still 0, n.callFinalizer() (the re-read is the repair "fix: cache: finalise ... only at
        zero references"; [exec_old] below is the behaviour before it)                          [IZero]
      - Handle creation / the CAS of Handle.Release                                            [IHandle, AStart ORelease]
-     - Close(false): closed := true under Cache.mu.Lock — enabled only when no goroutine holds RLock —
-       then one lru.Evict per node                                                            [AStart OClose, IEvict]
+     - Close(false): closed := true under the exclusive lock(s) — enabled only when no goroutine is inside
+       Get/Delete/Evict/EvictNS/EvictAll — then one lru.Evict per node                        [AStart OClose, IEvict]
+       (Since "fix: cache: Close must not deadlock with an operation whose cacher step releases a handle"
+       the operations hold Cache.opMu shared from entry to exit — that is [t_rl] — unRefExternal's zero
+       branch runs under Cache.mu shared — the single action IZero — and Close's flag section holds
+       opMu and mu exclusively.  The transition relation below is the same for the protocol as found,
+       where all three were the one Cache.mu: what differs is who BLOCKS whom; that is modelled in
+       Conc/CacheLocks.v, which restricts this LTS by sync.RWMutex's rules for either protocol.)
      - Close(true): ONE action (flag + the whole StoreInt32(ref,0)/Evict/callFinalizer loop): the
        property exempts force-close from the release ordering, and the loop's unsynchronised
        callFinalizer is not faithfully representable at this granularity anyway (see below)   [AStart OClose]
